@@ -266,3 +266,19 @@ func Run(env *Env, cfg Config, o Opts) *Result {
 	}
 	return res
 }
+
+// QuietStdout redirects os.Stdout to /dev/null until the returned function is
+// called: cedar's token code reports failed exchanges with fmt.Printf, which
+// would drown the check's own output during tampering runs.
+func QuietStdout() (restore func()) {
+	old := os.Stdout
+	null, err := os.OpenFile(os.DevNull, os.O_WRONLY, 0)
+	if err != nil {
+		return func() {}
+	}
+	os.Stdout = null
+	return func() {
+		os.Stdout = old
+		null.Close()
+	}
+}
